@@ -19,7 +19,7 @@ CLAIMED = {
             "refused over the whole range of that type; ensure_sorted repairs any in-chunk order under every flag combination.", "4/C02"),
     "C04": ("Cooler.extent/offset, bins()/pixels()/matrix() fetch, GenomeSegmentation.fetch and bedslice are executed on bin tables with symbolic widths "
             "(fixed-width path taken through the real get_binsize; variable path) and symbolic (chrom, start, end): selected bins == overlapping bins of that "
-            "chromosome; pixel and two-region matrix fetch == index queries on the extents; also on chromosomes as long as int32 coordinates allow (bin widths 6e8, 1e9).", "4/C04"),
+            "chromosome; pixel and two-region matrix fetch == index queries on the extents; also on chromosomes as long as int32 coordinates allow (bin widths 6e8, 1e9), and on a concrete chromosome of thousands of bins with the bounds at the starts of bins numbered k*512 / k*1000 (scale case).", "4/C04"),
     "C05": ("sanitize_records, sanitize_pixels and aggregate_records run on symbolic records (chromosome incl. unlisted, unbounded positions, sided field) "
             "over bin tables with symbolic widths: rejected iff an anchor is outside its chromosome, dropped iff unlisted (or tril under drop), otherwise "
             "assigned to the bins containing the anchors, mirrored with its sided fields, counted once; chromosome columns given as names or as categoricals in another category order.", "4/C05"),
